@@ -68,10 +68,13 @@ struct TxReasm {
     size: usize,
     buf: Vec<u8>,
     dg: usize,
+    /// link-layer source of the FRAG1 frame: the reassembly key at the receiver, so every FRAGN has to repeat it
+    src: Addr154,
 }
 
 struct Side {
     node: Node,
+    view: crate::tap::NodeView,
     ll: Addr154,
     addrs: Vec<[u8; 16]>,
     udp: Vec<(SocketHandle, u16, u8)>,
@@ -224,6 +227,7 @@ fn build_side(tape: &mut Tape, idx: usize, desc: &mut String) -> Side {
         cfg.addrs.push((IpAddr::V6(*a), 64));
     }
     let mut node = build_node(&cfg);
+    let view = cfg.view();
     if tape.draw(2) == 0 {
         let _ = node.iface.sixlowpan_address_context_mut().push(SixlowpanAddressContext(CTX_PREFIX));
     }
@@ -283,6 +287,7 @@ fn build_side(tape: &mut Tape, idx: usize, desc: &mut String) -> Side {
     ));
     Side {
         node,
+        view,
         ll,
         addrs,
         udp: udps,
@@ -391,7 +396,10 @@ fn on_tx(c: &mut C, i: usize, raw: &[u8]) -> Result<Option<(usize, usize)>, Viol
     if f.frame_type != 1 {
         return Ok(None);
     }
-    if on && f.src != c.s[i].ll {
+    // (the later fragments of a datagram that was leaving while the application changed the hardware address keep
+    // the address the first fragment went out with)
+    let fragn_of_current = c.s[i].reasm.as_ref().map(|r| r.src == f.src).unwrap_or(false) && f.payload.first().map(|d| d & 0xf8 == 0xe0).unwrap_or(false);
+    if on && f.src != c.s[i].ll && !fragn_of_current {
         return Err(v("C20.frame/link-layer-source", "frame", format!("frame from node {} carries link-layer source {:?}, the node's address is {:?}", c.s[i].node.name, f.src, c.s[i].ll)));
     }
     if f.payload.is_empty() {
@@ -425,7 +433,7 @@ fn on_tx(c: &mut C, i: usize, raw: &[u8]) -> Result<Option<(usize, usize)>, Viol
             }
             let dg = c.s[i].wire.len();
             c.s[i].wire.push(Dg { ip6: vec![], pkt: Packet { eth: None, arp: None, ip: None, l4: None }, frame_deliveries: vec![0], app_deliveries: 0, fragmented: true, t: c.now });
-            c.s[i].reasm = Some(TxReasm { tag: h.tag, size, buf, dg });
+            c.s[i].reasm = Some(TxReasm { tag: h.tag, size, buf, dg, src: f.src.clone() });
             let fi = 0;
             finish_if_complete(c, i)?;
             return Ok(Some((dg, fi)));
@@ -434,6 +442,9 @@ fn on_tx(c: &mut C, i: usize, raw: &[u8]) -> Result<Option<(usize, usize)>, Viol
         let Some(r) = c.s[i].reasm.as_mut() else {
             return if on { Err(v("C20.frag/fragn-without-frag1", "fragment", format!("node {} emitted FRAGN tag {:#x} offset {} with no datagram in progress", name, h.tag, h.offset))) } else { Ok(None) };
         };
+        if on && f.src != r.src {
+            return Err(v("C20.frag/link-layer-source-changed-within-datagram", "fragment", format!("FRAGN of datagram tag {:#x} carries link-layer source {:?}, its FRAG1 went out with {:?}: the receiver cannot put them together", h.tag, f.src, r.src)));
+        }
         if on && (h.tag != r.tag || h.size as usize != r.size) {
             return Err(v("C20.frag/tag-or-size-changed", "fragment", format!("FRAGN carries tag {:#x} size {} but the datagram in progress has tag {:#x} size {}", h.tag, h.size, r.tag, r.size)));
         }
@@ -503,6 +514,12 @@ fn complete(c: &mut C, i: usize, dg: usize, ip6: Vec<u8>) -> Result<(), Violatio
         }
     };
     c.stats.inc("6lo.datagrams-on-wire");
+    if c.props.has("C10") && matches!(&pkt.l4, Some(L4::Icmp6(_))) {
+        // the semantic rules of the wire tap for what the stack itself originates (NDISC options and hop limits,
+        // ICMPv6 error sizes, MLD ...) apply to what the frames decompress to just as they do on the other media
+        // (UDP payloads here are application data, whatever the port)
+        crate::tap::check_packet_semantics(&c.s[i].view, &pkt)?;
+    }
     let ip = pkt.ip.clone().unwrap();
     let (src, dst) = match (&ip.src, &ip.dst) {
         (IpAddr::V6(s), IpAddr::V6(d)) => (*s, *d),
@@ -1169,6 +1186,50 @@ fn body(c: &mut C, thorough: bool) -> Result<(), Violation> {
                 // a connection that never got established (SYN lost repeatedly) or was reset is not this property's concern
                 if st == tcp::State::Established {
                     return Err(v("C20.lossless/tcp-stream-incomplete", "lossless", format!("after faults stopped node {} read only {} of the {} stream octets the peer wrote", c.s[i].node.name, c.s[i].tcp_read, c.s[1 - i].tcp_written)));
+                }
+            }
+        }
+    }
+    // ---- last act (one run in three): the application changes the hardware address while a fragmented datagram
+    // is leaving. The fragments still to come keep the address the first one carried (it is the reassembly key);
+    // nothing is claimed about delivery afterwards.
+    if c.tape.draw(3) == 0 {
+        let i = c.tape.draw(2) as usize;
+        if let (Addr154::Ext(old), true, true) = (c.s[i].ll.clone(), c.s[i].reasm.is_none(), c.link.is_empty()) {
+            let (h, sport, hop) = c.s[i].udp[0];
+            let dport = c.s[1 - i].udp[0].1;
+            let dst = [0xff, 0x02, 0, 0, 0, 0, 0, 0, 0, 0, 0, 0, 0, 0, 0, 1];
+            let n = c.tape.range(300, 900) as usize;
+            let payload = payload_bytes(c.tape.draw(1 << 30), n);
+            let so = c.s[i].node.sockets.get_mut::<udp::Socket>(h);
+            let ep = IpEndpoint::new(v6(&dst), dport);
+            if guard("udp::send_slice", || so.send_slice(&payload, ep))?.is_ok() {
+                let t = c.now;
+                c.s[i].pend_udp.push(UdpSend { sport, dport, dst, hop, payload, t, oversize: false, hopeless: false });
+                c.faults_on = false;
+                let mut changed = false;
+                for round in 0..200 {
+                    c.s[i].node.dev.tx_budget = if changed { None } else { Some(1 + c.tape.draw(3) as usize) };
+                    let now = c.now;
+                    let info = c.s[i].node.poll(now)?;
+                    for raw in &info.tx {
+                        on_tx(c, i, raw)?;
+                    }
+                    if !changed && c.s[i].reasm.is_some() {
+                        let mut new = old;
+                        new[7] ^= 0x5a;
+                        new[3] ^= 0x01;
+                        let iface = &mut c.s[i].node.iface;
+                        guard("Interface::set_hardware_addr", || iface.set_hardware_addr(smoltcp::wire::HardwareAddress::Ieee802154(smoltcp::wire::Ieee802154Address::Extended(new))))?;
+                        c.s[i].ll = Addr154::Ext(new);
+                        c.s[i].view.hw_addr = new.to_vec();
+                        changed = true;
+                        c.stats.inc("6lo.hardware-address-changed-mid-datagram");
+                    }
+                    if c.s[i].reasm.is_none() && (changed || round > 3) {
+                        break;
+                    }
+                    c.now += 1_000;
                 }
             }
         }
